@@ -42,6 +42,27 @@ def _match_one(x, m):
 
 def compare(op, impl, model):
     kind = op.split(" ", 1)[0]
+    if kind == "emx":
+        # numerator and sensitivity are formed by the model from the explicit system matrix: n float operations per voxel
+        # (longest row + longest column + 16, token 7 of the op), all terms non-negative: forward error bound 4 n 2^-24 |value|
+        a, b = impl.split(), model.split()
+        try:
+            rel = Fraction(4 * int(op.split(" ", 8)[6]), 2 ** 24)
+        except (ValueError, IndexError):
+            return False
+        if len(a) != len(b) or not a:
+            return False
+        for x, m in zip(a, b):
+            xv = _impl_value(x)
+            try:
+                q = Fraction(m)
+            except (ValueError, ZeroDivisionError):
+                return False
+            if xv is None or xv != xv or xv in (float("inf"), float("-inf")):
+                return False
+            if abs(Fraction(xv) - q) > rel * abs(q) + ABS:
+                return False
+        return True
     if kind not in ("upd", "eoi", "setup", "uimg", "post", "init"):
         return impl == model
     if kind in ("post", "init"):      # no arithmetic between the observation and the answer: exact
@@ -86,7 +107,9 @@ def main(tier, replay):
         "images 5-7 across, ray-tracing matrix with all symmetry switches, Poisson data, additive on/off, "
         "normalisation on/off (non-TOF), subset/total sensitivities, none/quadratic/RDP prior x additive/multiplicative MAP, relative-change clamps, "
         "inter-update/inter-iteration filters, post-filter, every number of subsets the library accepts, start subset, enforce_initial_positivity "
-        "on/off) plus a synthetic stream through the class's virtual hooks (zeros, tiny values, negatives, values around every clamp). Per "
+        "on/off, `zero end planes of segment 0` off/on (set_zero_seg0_end_planes and the parameter-file keyword; 1 and several subsets, with/without "
+        "additive term and normalisation, span 1 / span 3 / view mashing / TOF), sensitivities computed / written to / read from files "
+        "(recompute sensitivity, sensitivity filename, subset sensitivity filenames: setters and keywords)) plus a synthetic stream through the class's virtual hooks (zeros, tiny values, negatives, values around every clamp). Per "
         "sub-iteration: image before + the real objective function's subset gradient-plus-sensitivity, subset sensitivity, prior gradient (hex "
         "floats, data) -> image after; the Lean model recomputes the image after exactly in Rat; comparison per voxel |impl - model| <= 2^-16 "
         "|model| + 2^-148 (6 float roundings, the one of prior_gradient/num_subsets amplified <= 110x inside the clamp range [s/10,10s]); both "
@@ -94,14 +117,21 @@ def main(tier, replay):
         "`uimg` the image written by write_update_image (same tolerance), `post` what is saved as iterate k of a run with a post-filter (exact: "
         "filtered at k = num_subiterations only), `init` get_initial_data_ptr for initial estimate 0 / 1 / file (exact), `bal` acceptance of every "
         "number of subsets 1..views+1 by set_up (balanced subsets: projector symmetries as requested, views, TOF, view-mashing phi offset), `chk` "
-        "parameter ranges. distinct = distinct op lines. Oracle on the implementation: textbook EM formula from the explicit system matrix (TOF: "
-        "s_S of the non-TOF matrix, STIR's default, or of the TOF matrix), non-negativity, count preservation, monotone log-likelihood, MAP "
+        "parameter ranges; `mat`/`dat`/`emx` (non-TOF geometries): the explicit system matrix and the data per bin are handed to the model, which "
+        "forms numerator AND sensitivity of a plain-EM sub-iteration itself (emExplicit: bins of the subset, segments to process, the three "
+        "viewgrams of the first/last sinogram of segment 0 zeroed when `zero end planes of segment 0` is on) and answers 24 voxels of the image "
+        "after; tolerance 4 n 2^-24 relative, n = longest row + longest column + 16 float operations, all terms non-negative. "
+        "distinct = distinct op lines. Oracle on the implementation: textbook EM formula from the explicit system matrix (TOF: "
+        "s_S of the non-TOF matrix, STIR's default, or of the TOF matrix; with `zero end planes of segment 0` the matrix without the rows of the "
+        "first and last sinogram of segment 0 for numerator, sensitivity, counts and log-likelihood alike), non-negativity, count preservation, monotone log-likelihood, MAP "
         "denominator bounds, stepwise = uninterrupted run (bitwise; with a post-filter: called once, at the last sub-iteration, on the last "
         "iterate, all other saved iterates untouched), save intervals, re-used objects, a run with report_objective_function_values_interval > 0 "
         "and write_update_image = bitwise the run without them (and image_k = image_{k-1} * limited written update, bitwise), restart at every k "
         "from the saved Interfile image (bitwise, post-filter included), the same restart and runs from initial estimate 0 / 1 driven by "
         "PARAMETER FILES (OSMAPOSLReconstruction(parfile) + no-argument reconstruct(): initial estimate, start at subiteration number, objective "
         "function / projector / prior / normalisation parsed from Interfile copies of the data) = bitwise the in-memory path, "
+        "sensitivity files (written file(s) = bitwise the sensitivity in use; a run reading them = bitwise the run computing them; files holding "
+        "twice the sensitivity are the sensitivity in use), "
         "enforce_initial_positivity both ways (known finding restart:enforce-initial-positivity-lifts-exact-zeros: option on + exact zeros in the "
         "saved image; there the same restart point with the option off must be bitwise equal and the deviating run must be bitwise the run from "
         "the lifted image). Known finding em-formula:tof-subset-sensitivity-by-symmetries-of-non-tof-projector: TOF data, > 1 subset, subset "
@@ -109,9 +139,9 @@ def main(tier, replay):
         "must then be exactly data-subset numerator / that other sensitivity).",
         extra=dict(input_distribution=cov))
     chk.assumptions += ["float rounding, overflow/underflow and signed zeros are not modelled (exact Rat + derived tolerance)",
-                        "subset gradient-plus-sensitivity, subset sensitivities, prior gradient and user filters (inter-update, inter-iteration, post) are data for the model (C05/C09)",
+                        "subset gradient-plus-sensitivity, subset sensitivities, prior gradient and user filters (inter-update, inter-iteration, post) are data for the model (C05/C09), except in the `emx` operations where the model forms numerator and sensitivity from the explicit system matrix (its elements are data: C04) on the regular region of divide_and_truncate",
                         "randomised subset order excluded (C06)",
-                        "user filters are harness-defined DataProcessors set through the setters also on objects made from a parameter file (a registered filter parsed from the file is not exercised); TOF data without normalisation (no setter for use_tofsens); zoom 1; parametric images, MPI, KOSMAPOSL not covered",
+                        "user filters are harness-defined DataProcessors set through the setters also on objects made from a parameter file (a registered filter parsed from the file is not exercised); TOF data without normalisation and with the default `use time-of-flight sensitivities := 0` only; `sensitivity filename := 1` (sensitivity forced to 1) not exercised; a real step that yields a non-finite image ends its case without verdict (seen on TOF geometries: numerator of the TOF matrix non-zero at an edge voxel where the sensitivity of the non-TOF matrix is 0); zoom 1; parametric images, MPI, KOSMAPOSL not covered",
                         "resuming from the post-filtered LAST image of a finished run is not a restart in the sense of the property (k < num_subiterations)"]
     if audit:
         vlib.proof_coverage(chk, audit, "cd lean && lake build StirVerif stirdriver && lake env lean ../build/out/Audit_C07.lean")
